@@ -826,6 +826,33 @@ pub fn choice_tail_family() -> Vec<Grammar> {
             }
         }
     }
+    // markers and creations around an ordered choice: a creation inside an attempt must not reach in front of it
+    {
+        let n = || Some("n".to_string());
+        let bodies: Vec<(bool, Rx)> = vec![
+            (false, cat(vec![Rx::Marker(1), tok(0), par(cho(vec![cat(vec![tok(1), Rx::Create(Some(1), n()), tok(2)]), tok(1)]))])),
+            (false, cat(vec![tok(0), par(cho(vec![cat(vec![Rx::Marker(1), tok(1), Rx::Create(Some(1), n()), tok(2)]), tok(1)]))])),
+            (false, cat(vec![Rx::Marker(1), tok(0), par(cho(vec![cat(vec![tok(1), Rx::Commit, Rx::Create(Some(1), n()), tok(2)]), tok(1)]))])),
+            (false, cat(vec![Rx::Marker(1), tok(0), par(cho(vec![cat(vec![tok(1), tok(2)]), cat(vec![tok(1), Rx::Create(Some(1), n())])]))])),
+            (true, cat(vec![tok(0), par(cho(vec![cat(vec![tok(1), Rx::Create(None, n()), tok(2)]), tok(1)]))])),
+            (true, cat(vec![tok(0), par(cho(vec![cat(vec![tok(1), Rx::Commit, Rx::Create(None, n()), tok(2)]), tok(1)]))])),
+        ];
+        for (elided, body) in bodies {
+            let mut g = grammar(3, vec![("s", false, Some(cat(vec![rf(1), tok(1)]))), ("x", elided, Some(body))]);
+            out.push(g.clone());
+            g.rules[0].body = Some(rf(1));
+            out.push(g);
+        }
+        // whole-rule creation in a rule that is called from inside an attempt
+        out.push(grammar(
+            3,
+            vec![
+                ("s", false, Some(rf(1))),
+                ("x", false, Some(cat(vec![tok(0), par(cho(vec![rf(2), tok(1)]))]))),
+                ("y", true, Some(cat(vec![tok(1), Rx::Create(None, n()), tok(2)]))),
+            ],
+        ));
+    }
     for f in &firsts {
         for l in &lasts {
             for ctx in 0..4 {
